@@ -150,7 +150,16 @@ def run(chk, repo, tier):
     # ---- R04.6 reviewed -----------------------------------------------------
     R.reviewed_matcher(chk, repo, 'R04.6')
     R.reviewed_scheme(chk, repo, 'R04.6', names=[
+        '_aromatization_Benson', 'sanitize_except_aromatization',
         'GroupAdditivityScheme.GetDescriptors',
         'GroupAdditivityScheme._AssignCenterPattern',
         'GroupAdditivityScheme._AssignGroup',
         'GroupAdditivityScheme._AssignDescriptor'])
+    # comparison numbers used by the patterns' constraints
+    from . import c08 as _c08
+    from .. import grammar_ir as _G, reviewed as _rv
+    _c08.ops_table(chk, repo, _G.load(repo)[1], R2='R04.6', R3='R04.6')
+    for q in ('ConstraintNumber.__init__', 'ConstraintNumber.__call__'):
+        _rv.check(chk, 'R04.6', repo, 'pgradd/RDkitWrapper/MolQuery.py', q,
+                  '%s is unchanged from its reviewed reference' % q)
+
